@@ -241,7 +241,7 @@ def verifyArgHook (c : ClsDesc) (a : Arg) : Bool :=
   | "Delay" | "DefaultDelay" => match a.content with | .int i => !(i < 0) | _ => true
   | "Whitespace" => match a.content with | .int i => (i > -1 && i < 100) | _ => true
   | "Start" => !(endsWith ['.'] a.str)
-  | "Var" => match splitWs1 (strip a.str) with | some (_, some _) => true | _ => false
+  | "Var" => match splitWs1 a.str with | some (_, some _) => true | _ => false
   | "FlipperAltChar" => let s := strip a.str; !s.isEmpty && s.all isDigitC && s.length ≤ 4
   | _ => true
 
